@@ -113,3 +113,115 @@ Proof.
   intros Hl. pose proof (read_blocks_never_out_of_fuel f sync bs acc Hl). pose proof (read_blocks_no_panic f sync bs acc).
   destruct (read_blocks f sync bs acc); auto.
 Qed.
+
+(* ------------------------------------------------------------------ read_varint: the 10-byte array path (additive,
+   with the continuation bit subtracted afterwards) and the slow path both compute the bounded ULEB128 specification *)
+From AV Require Import Proofs.C08_Vlq.
+
+(* the specification with a byte counter instead of the remaining input *)
+Fixpoint udc (fuel : nat) (bs : list N) (idx acc : N) : option (N * N) :=
+  match fuel with
+  | O => None
+  | S f => match bs with
+           | [] => None
+           | b :: r => let acc' := acc + (b mod 128) * 2^(7 * idx) in
+                       if b <? 128 then (if (idx =? 9) && (1 <? b) then None else Some (acc', idx + 1))
+                       else udc f r (idx + 1) acc'
+           end
+  end.
+
+Lemma uleb_dec_len : forall fuel bs sh acc v r, uleb_dec fuel bs sh acc = Some (v, r) -> (length r < length bs)%nat.
+Proof.
+  induction fuel as [|f IH]; intros bs sh acc v r; cbn [uleb_dec]; [discriminate|].
+  destruct bs as [|b t]; [discriminate|]. destruct (b <? 128).
+  - destruct (_ && _); [discriminate|]. intros H; inversion H; subst. cbn. lia.
+  - intros H. apply IH in H. cbn. lia.
+Qed.
+
+Lemma udc_spec : forall fuel bs idx acc,
+  udc fuel bs idx acc = match uleb_dec fuel bs (7 * idx) acc with
+                        | Some (v, r) => Some (v, idx + N.of_nat (length bs - length r))
+                        | None => None end.
+Proof.
+  induction fuel as [|f IH]; intros bs idx acc; cbn [udc uleb_dec]; [reflexivity|].
+  destruct bs as [|b t]; [reflexivity|].
+  replace (7 * idx =? 63) with (idx =? 9) by (destruct (N.eqb_spec idx 9), (N.eqb_spec (7 * idx) 63); lia).
+  destruct (b <? 128).
+  - destruct (_ && _); [reflexivity|]. f_equal. f_equal. cbn [length]. lia.
+  - rewrite IH. replace (7 * (idx + 1)) with (7 * idx + 7) by lia.
+    destruct (uleb_dec f t (7 * idx + 7) _) as [[v r]|] eqn:E; [|reflexivity].
+    apply uleb_dec_len in E. f_equal. f_equal. cbn [length]. lia.
+Qed.
+
+Lemma byte_hi b : b < 256 -> 128 <= b -> b mod 128 = b - 128.
+Proof. intros. symmetry. apply (N.mod_unique b 128 1 (b - 128)); lia. Qed.
+
+Lemma udc_cons f b r idx acc :
+  udc (S f) (b :: r) idx acc =
+  if b <? 128 then (if (idx =? 9) && (1 <? b) then None else Some (acc + (b mod 128) * 2^(7 * idx), idx + 1))
+  else udc f r (idx + 1) (acc + (b mod 128) * 2^(7 * idx)).
+Proof. reflexivity. Qed.
+
+Lemma arr_cons k idx b r acc :
+  varint_array_loop (S k) idx (b :: r) acc =
+  if b <? 128 then inl (Some (acc + N.shiftl b (7 * idx), idx + 1))
+  else varint_array_loop k (idx + 1) r (acc + N.shiftl b (7 * idx) - N.shiftl 128 (7 * idx)).
+Proof. reflexivity. Qed.
+
+Lemma array_path_spec : forall k idx bs acc,
+  idx + N.of_nat k = 9 -> wf_bytes bs -> (k < length bs)%nat -> acc < 2^(7 * idx) ->
+  match varint_array_loop k idx bs acc with
+  | inl r => r
+  | inr a => let b := nth k bs 0 in if b <? 2 then Some (a + N.shiftl b 63, 10) else None
+  end = udc (S k) bs idx acc.
+Proof.
+  induction k as [|k IH]; intros idx bs acc Hi Hw Hl Ha.
+  - assert (idx = 9) by lia. subst idx. destruct bs as [|b t]; [cbn in Hl; lia|].
+    rewrite udc_cons. cbn [varint_array_loop nth]. cbv zeta. rewrite N.shiftl_mul_pow2. cbn [N.eqb andb].
+    change (7 * 9) with 63.
+    destruct (N.ltb_spec b 2) as [H2|H2].
+    + destruct (N.ltb_spec b 128); [|lia]. destruct (N.ltb_spec 1 b); [lia|]. cbn [andb].
+      rewrite N.mod_small by lia. reflexivity.
+    + destruct (N.ltb_spec b 128); [|reflexivity]. destruct (N.ltb_spec 1 b); [reflexivity|lia].
+  - destruct bs as [|b t]; [cbn in Hl; lia|].
+    inversion Hw as [|? ? Hb Hw']; subst.
+    rewrite arr_cons, udc_cons. cbn [nth]. rewrite (N.shiftl_mul_pow2 b), (N.shiftl_mul_pow2 128).
+    destruct (N.ltb_spec b 128) as [Hlt|Hge].
+    + destruct (N.eqb_spec idx 9); [lia|]. cbn [andb]. rewrite N.mod_small by exact Hlt. reflexivity.
+    + rewrite (byte_hi b Hb Hge).
+      replace (acc + b * 2^(7 * idx) - 128 * 2^(7 * idx)) with (acc + (b - 128) * 2^(7 * idx)) by nia.
+      apply IH; [lia|exact Hw'|cbn in Hl; lia|].
+      replace (7 * (idx + 1)) with (7 * idx + 7) by lia. rewrite N.pow_add_r. change (2^7) with 128. nia.
+Qed.
+
+Lemma slow_path_spec : forall k count bs value, value < 2^(7 * count) ->
+  varint_slow_loop k count bs value = udc k bs count value.
+Proof.
+  induction k as [|k IH]; intros count bs value Hv; [reflexivity|].
+  destruct bs as [|b t]; [reflexivity|]. rewrite udc_cons. cbn [varint_slow_loop]. cbv zeta.
+  rewrite land127, N.shiftl_mul_pow2, (N.mul_comm count 7), (lor_add_shift value (b mod 128) (7 * count) Hv).
+  assert (Hm : b mod 128 < 128) by (apply N.mod_lt; discriminate).
+  destruct (N.leb_spec b 127) as [Hb|Hb]; destruct (N.ltb_spec b 128) as [Hb'|Hb']; try lia.
+  - destruct (N.eqb_spec count 9); cbn [negb orb andb].
+    + destruct (N.ltb_spec b 2), (N.ltb_spec 1 b); try lia; reflexivity.
+    + reflexivity.
+  - apply IH. replace (7 * (count + 1)) with (7 * count + 7) by lia. rewrite N.pow_add_r. change (2^7) with 128. nia.
+Qed.
+
+Theorem read_varint_spec bs : wf_bytes bs ->
+  read_varint bs = match varint_spec bs with
+                   | Some (v, r) => Some (v, N.of_nat (length bs - length r))
+                   | None => None end.
+Proof.
+  intros Hw. unfold varint_spec.
+  pose proof (udc_spec 10 bs 0 0) as Hs. rewrite N.mul_0_r in Hs.
+  assert (Hu : read_varint bs = udc 10 bs 0 0).
+  { destruct bs as [|b t]; [reflexivity|]. unfold read_varint.
+    destruct (N.ltb_spec b 128) as [Hb|Hb].
+    - rewrite udc_cons. destruct (N.ltb_spec b 128); [|lia]. cbn [N.eqb andb].
+      rewrite N.mod_small by exact Hb. rewrite N.mul_0_r, N.pow_0_r, N.mul_1_r, !N.add_0_l. reflexivity.
+    - destruct (Nat.leb_spec 10 (length (b :: t))) as [Hl|Hl].
+      + unfold read_varint_array. apply (array_path_spec 9 0 (b :: t) 0); [reflexivity|exact Hw|lia|cbn; lia].
+      + unfold read_varint_slow. apply slow_path_spec. cbn. lia. }
+  rewrite Hu, Hs. destruct (uleb_dec 10 bs 0 0) as [[v r]|]; reflexivity.
+Qed.
